@@ -26,6 +26,7 @@ import (
 //	<side>:slo / sla     SetLocalDescription(own last offer / own last answer)
 //	<side>:sro / sra     SetRemoteDescription(the peer's last offer / last answer)
 //	<side>:slp / srp     the same with the last answer's text applied as a provisional answer (type pranswer)
+//	<side>:slr / srr     SetLocalDescription / SetRemoteDescription with type rollback
 //	<side>:cl            Close
 //
 // After every op the harness waits (with a deadline) until both operations queues are drained or are
@@ -55,8 +56,11 @@ type c04Side struct {
 
 	stCh      <-chan webrtc.VerifTransportStart
 	stEntered bool // startTransports was entered (hook)
-	gathered  bool // a SetLocalDescription succeeded: gathering was started
-	closed    bool
+	// firstST is the call that enqueued the first startTransports ("sro", "srp" or "sra"): the transport roles
+	// are derived from that description, also when it is rolled back afterwards
+	firstST  string
+	gathered bool // a SetLocalDescription succeeded: gathering was started
+	closed   bool
 
 	candMu  sync.Mutex
 	inbox   []webrtc.ICECandidateInit // candidates of the peer waiting for our remote description
@@ -251,6 +255,10 @@ func (s *c04Side) apply(f []string) string {
 		}
 
 		return res(err)
+	case "slr":
+		return res(s.pc.SetLocalDescription(empty(webrtc.SDPTypeRollback)))
+	case "srr":
+		return res(s.pc.SetRemoteDescription(empty(webrtc.SDPTypeRollback)))
 	case "slo", "sla", "slp":
 		d := empty(webrtc.SDPTypeOffer)
 		if f[1] != "slo" {
@@ -287,8 +295,12 @@ func (s *c04Side) apply(f []string) string {
 			d = *s.peer.lastOffer
 		}
 		before := s.pc.SignalingState()
+		first := s.firstST == "" && s.pc.CurrentRemoteDescription() == nil
 		err := s.pc.SetRemoteDescription(d)
 		if err == nil {
+			if first {
+				s.firstST = f[1]
+			}
 			s.flushInbox()
 		} else if s.pc.SignalingState() != before {
 			if os.Getenv("VERIF_DEBUG") != "" {
@@ -334,7 +346,9 @@ func (s *c04Side) quiescent() (ok bool, blocked bool) {
 	p := s.peer
 	dtls := s.pc.SCTP().Transport().State()
 	if s.stEntered && (dtls == webrtc.DTLSTransportStateNew || dtls == webrtc.DTLSTransportStateConnecting) {
-		iceReady := p.stEntered && s.gathered && p.gathered && !p.closed
+		// two ends that both started from an applied offer (one was rolled back since) both take the DTLS
+		// client role: that pair never connects
+		iceReady := p.stEntered && s.gathered && p.gathered && !p.closed && !(s.firstST == "sro" && p.firstST == "sro")
 		if !iceReady {
 			return true, true
 		}
@@ -518,6 +532,46 @@ func (g *c04Gen) newRound() {
 	if r.Intn(8) == 0 {
 		o[len(o)-2], o[len(o)-1] = o[len(o)-1], o[len(o)-2]
 	}
+	// one round in six is abandoned: after 2..len-1 calls every side that is not stable rolls back
+	if r.Intn(6) == 0 {
+		k := 2 + r.Intn(len(o)-2)
+		o = o[:k]
+		xs, ys := "s", "s"
+		for _, t := range o {
+			switch t[2:] {
+			case "slo":
+				xs = "l"
+			case "srp":
+				xs = "q"
+			case "sra":
+				xs = "s"
+			case "sro":
+				ys = "r"
+			case "slp":
+				ys = "p"
+			case "sla":
+				ys = "s"
+			}
+		}
+		rb := map[string]string{"l": "slr", "p": "slr", "r": "srr", "q": "srr"}
+		first, second := y, x
+		if r.Intn(2) == 0 {
+			first, second = x, y
+		}
+		for _, sd := range []string{first, second} {
+			st := ys
+			if sd == x {
+				st = xs
+			}
+			if v, ok := rb[st]; ok {
+				// now and then something that needs negotiation happens right before the rollback
+				if r.Intn(3) == 0 {
+					o = append(o, sd+":tr:v:ro")
+				}
+				o = append(o, sd+":"+v)
+			}
+		}
+	}
 	g.order = o
 }
 
@@ -604,7 +658,7 @@ func (g *c04Gen) element() {
 	case p < 92: // an offer that may never be applied
 		g.emit("%s:co", s)
 	case p < 96: // malformed stream: a signaling call out of order
-		g.emit("%s:%s", s, []string{"co", "ca", "slo", "sla", "sro", "sra", "slp", "srp"}[r.Intn(8)])
+		g.emit("%s:%s", s, []string{"co", "ca", "slo", "sla", "sro", "sra", "slp", "srp", "slr", "srr", "slr", "srr"}[r.Intn(12)])
 	default:
 		g.emit("%s:cl", s)
 	}
@@ -613,7 +667,8 @@ func (g *c04Gen) element() {
 // c04Enumerate emits every sequence of at most `left` further elements over the reduced alphabet
 // {a: AddTrack(next new video track), a: RemoveTrack(last sender), a: AddTransceiverFromKind(video, recvonly),
 // a: CreateDataChannel, a complete round offered by a, a complete round offered by b, b: AddTrack(next new),
-// a round offered by a in which both sides apply the answer provisionally first}.
+// a round offered by a in which both sides apply the answer provisionally first, a round offered by b that a
+// abandons by rollback after adding a transceiver}.
 func c04Enumerate(c *Ctx, prefix []int, left int) {
 	if len(prefix) > 0 {
 		toks := []string{}
@@ -643,6 +698,8 @@ func c04Enumerate(c *Ctx, prefix []int, left int) {
 				nb++
 			case 7:
 				toks = append(toks, "a:co", "a:slo", "b:sro", "b:ca", "b:slp", "a:srp", "b:sla", "a:sra")
+			case 8:
+				toks = append(toks, "b:co", "b:slo", "a:sro", "a:tr:v:ro", "a:srr", "b:slr")
 			}
 		}
 		c.Emit("h %s", strings.Join(toks, " "))
@@ -650,7 +707,7 @@ func c04Enumerate(c *Ctx, prefix []int, left int) {
 	if left == 0 {
 		return
 	}
-	for e := 0; e < 8; e++ {
+	for e := 0; e < 9; e++ {
 		c04Enumerate(c, append(append([]int{}, prefix...), e), left-1)
 	}
 }
@@ -659,14 +716,15 @@ func init() {
 	registry["C04"] = &Prop{
 		Workers: 8,
 		Timeout: 120 * time.Second,
-		Rule: "21 scripted histories (one or two per clause of checkNegotiationNeeded / negotiationNeededOp, blocked " +
+		Rule: "25 scripted histories (one or two per clause of checkNegotiationNeeded / negotiationNeededOp, blocked " +
 			"phases, Close) plus " +
 			"seeded random sequential histories on a real PeerConnection pair over loopback: at most 12 elements, " +
 			"an element being AddTrack (new or re-used local track), RemoveTrack (existing or unknown sender), " +
 			"AddTransceiverFromKind (sendrecv/sendonly/recvonly, rarely the rejected inactive), CreateDataChannel, " +
 			"a complete offer/answer round (6 calls; in one round out of four the answer is first applied as a " +
 			"provisional answer on the answering side, in one out of five on the offering side; sometimes the last " +
-			"two calls swapped), 1-3 further calls of the " +
+			"two calls swapped; one round in six is abandoned half-way and every side that is not stable rolls " +
+			"back with SetLocal/SetRemoteDescription(rollback), sometimes right after adding a transceiver), 1-3 further calls of the " +
 			"round in progress (partial exchanges: other elements fall in between), a CreateOffer that may never be " +
 			"applied, a signaling call out of order (malformed stream), Close; 62% of the calls go to side a. After " +
 			"every call both operations queues are awaited (deadline 12 s) until drained or blocked on the peer " +
@@ -675,38 +733,43 @@ func init() {
 			"offers first. Thorough adds, completely enumerated, every history of at most four elements over the " +
 			"reduced alphabet {a:AddTrack(new), a:RemoveTrack(last), a:AddTransceiverFromKind(video,recvonly), " +
 			"a:CreateDataChannel, round offered by a, round offered by b, b:AddTrack(new), round offered by a with " +
-			"provisional answers on both sides} (4680 histories). " +
+			"provisional answers on both sides, round offered by b rolled back by a after AddTransceiverFromKind} " +
+			"(7380 histories). " +
 			"Trivial: a history in which no handler invocation happened on either side.",
 		Gen: func(c *Ctx) {
 			// scripted stream: one or two histories per clause of checkNegotiationNeeded / negotiationNeededOp
 			ra := "a:co a:slo b:sro b:ca b:sla a:sra"
 			rb := "b:co b:slo a:sro a:ca a:sla b:sra"
 			for _, h := range []string{
-				"a:at:v0 a:at:v1",                                                                   // step 3 (no local description), 4.7.3.2.5
-				"a:dc a:dc " + ra + " a:dc b:dc",                                                    // step 4: first data channel only
-				"b:dc " + rb + " a:dc a:at:a0",                                                      // … negotiated by the peer
-				"a:at:v0 " + ra + " a:at:v1 a:tr:a:ro",                                              // step 5.2: no m-section for the mid
-				"a:tr:v:ro " + ra + " b:at:v0 " + rb,                                                // 5.3.1: sendonly without sender (answerer), re-use
-				"a:tr:v:ro " + ra + " a:at:v0 " + ra + " a:rt:0",                                    // 5.3.1 msid; 5.3.2 after RemoveTrack
-				"a:at:v0 " + ra + " a:rt:0 " + ra,                                                   // 5.3.2: offerer's direction changed
-				"a:tr:v:sr a:tr:a:so " + ra + " a:rt:1 a:rt:0",                                      // 5.3.2: sendonly -> inactive, sendrecv -> recvonly
-				"b:at:v0 a:at:v0 " + ra + " b:rt:0",                                                 // 5.3.3: answerer's direction changed
-				"b:tr:a:so a:tr:a:ro " + ra + " b:rt:0 " + rb,                                       // 5.3.3: sendonly answer, then inactive
-				"a:at:v0 a:co a:slo a:at:a0 a:dc b:sro b:ca b:sla a:sra " + ra,                      // change during have-local-offer
-				"b:at:v0 b:co b:slo a:sro a:at:v1 a:tr:a:ro a:ca a:sla b:sra",                       // change during have-remote-offer
-				"a:at:v0 a:co a:slo b:sro b:ca a:sra a:at:v1 b:sla",                                 // offerer blocked in startTransports
-				"a:at:v0 " + ra + " b:dc b:co b:slo a:sro a:ca a:sla a:at:v1 b:sra",                 // answerer blocked in SCTP start
-				"a:at:v0 " + ra + " a:cl a:at:v1 a:dc b:at:v0 " + rb,                                // nothing after Close
-				"a:at:v0 a:co a:slo b:sro a:at:v1 a:cl b:ca b:sla b:at:v0",                          // Close with queued work
-				"a:tr:v:sr " + ra + " a:tr:a:sr a:co a:slo b:sro b:ca b:slp b:tr:v:ro b:sla a:sra",  // need arises in have-local-pranswer
-				"a:at:v0 " + ra + " a:at:a0 a:co a:slo b:sro b:ca a:srp a:tr:v:ro a:dc b:sla a:sra", // … in have-remote-pranswer
-				"a:at:v0 a:co a:slo b:sro b:ca b:slp b:at:v0 a:srp a:at:v1 b:ca b:sla a:sra",        // first exchange with provisional answers
-				"a:at:v0 a:dc a:co a:slo b:sro b:ca a:srp b:slp b:sla a:sra a:slp b:srp",            // pranswer before the peer gathered; refused ones
-				"a:co a:slo b:sro b:ca b:sla a:sra a:at:v0",                                         // descriptions without m-sections are refused
+				"a:at:v0 a:at:v1",                                                                     // step 3 (no local description), 4.7.3.2.5
+				"a:dc a:dc " + ra + " a:dc b:dc",                                                      // step 4: first data channel only
+				"b:dc " + rb + " a:dc a:at:a0",                                                        // … negotiated by the peer
+				"a:at:v0 " + ra + " a:at:v1 a:tr:a:ro",                                                // step 5.2: no m-section for the mid
+				"a:tr:v:ro " + ra + " b:at:v0 " + rb,                                                  // 5.3.1: sendonly without sender (answerer), re-use
+				"a:tr:v:ro " + ra + " a:at:v0 " + ra + " a:rt:0",                                      // 5.3.1 msid; 5.3.2 after RemoveTrack
+				"a:at:v0 " + ra + " a:rt:0 " + ra,                                                     // 5.3.2: offerer's direction changed
+				"a:tr:v:sr a:tr:a:so " + ra + " a:rt:1 a:rt:0",                                        // 5.3.2: sendonly -> inactive, sendrecv -> recvonly
+				"b:at:v0 a:at:v0 " + ra + " b:rt:0",                                                   // 5.3.3: answerer's direction changed
+				"b:tr:a:so a:tr:a:ro " + ra + " b:rt:0 " + rb,                                         // 5.3.3: sendonly answer, then inactive
+				"a:at:v0 a:co a:slo a:at:a0 a:dc b:sro b:ca b:sla a:sra " + ra,                        // change during have-local-offer
+				"b:at:v0 b:co b:slo a:sro a:at:v1 a:tr:a:ro a:ca a:sla b:sra",                         // change during have-remote-offer
+				"a:at:v0 a:co a:slo b:sro b:ca a:sra a:at:v1 b:sla",                                   // offerer blocked in startTransports
+				"a:at:v0 " + ra + " b:dc b:co b:slo a:sro a:ca a:sla a:at:v1 b:sra",                   // answerer blocked in SCTP start
+				"a:at:v0 " + ra + " a:cl a:at:v1 a:dc b:at:v0 " + rb,                                  // nothing after Close
+				"a:at:v0 a:co a:slo b:sro a:at:v1 a:cl b:ca b:sla b:at:v0",                            // Close with queued work
+				"a:tr:v:sr " + ra + " a:tr:a:sr a:co a:slo b:sro b:ca b:slp b:tr:v:ro b:sla a:sra",    // need arises in have-local-pranswer
+				"a:at:v0 " + ra + " a:at:a0 a:co a:slo b:sro b:ca a:srp a:tr:v:ro a:dc b:sla a:sra",   // … in have-remote-pranswer
+				"a:at:v0 a:co a:slo b:sro b:ca b:slp b:at:v0 a:srp a:at:v1 b:ca b:sla a:sra",          // first exchange with provisional answers
+				"a:at:v0 a:dc a:co a:slo b:sro b:ca a:srp b:slp b:sla a:sra a:slp b:srp",              // pranswer before the peer gathered; refused ones
+				"a:tr:v:sr " + ra + " b:co b:slo a:sro a:tr:v:ro a:srr b:slr",                         // need raised in have-remote-offer, stable by rollback
+				"a:tr:v:sr " + ra + " a:tr:a:ro a:co a:slo b:sro b:tr:v:ro b:srr a:slr",               // … on the answerer; the offerer rolls back with its need still there
+				"a:at:v0 " + ra + " a:at:a0 a:co a:slo b:sro b:ca b:slp b:dc b:slr a:srp a:srr a:slr", // rollback from the pranswer states
+				"a:at:v0 a:co a:slo b:sro b:srr a:slr a:slr a:srr a:co a:slo b:sro b:ca b:sla a:sra",  // first exchange abandoned, then redone; refused rollbacks
+				"a:co a:slo b:sro b:ca b:sla a:sra a:at:v0",                                           // descriptions without m-sections are refused
 			} {
 				c.Emit("h %s", h)
 			}
-			for n := 0; n < c.N(300, 2500); n++ {
+			for n := 0; n < c.N(240, 2500); n++ {
 				g := &c04Gen{c: c, senders: map[string]int{}, tracks: map[string]int{}, lastSender: map[string]int{}}
 				l := 4 + c.Rng.Intn(9)
 				// four histories in five begin with something to negotiate on the side that offers first
